@@ -56,7 +56,7 @@ contract('PartHandler._schedule_pass_part_downstream', props=['C03', 'C06'], for
 
 specfn('base_open', ['d', 'part'], 'part is not None and not d._block_input and d._part is None and d._output is None')
 
-contract('PartHandler.notify_upstream_of_available_space', props=['C03'], for_cls=['PartHandler', 'Source', 'Sink', 'PartBatcher'],
+contract('PartHandler.notify_upstream_of_available_space', props=['C03'], for_cls=['PartHandler', 'PartProcessor', 'Source', 'Sink', 'PartBatcher'],
          modular=True, args={},
          ensures={'every_upstream_is_notified_once_in_order':
                       'trace_len() == old(trace_len()) + len(self._upstream) and '
@@ -155,7 +155,7 @@ loop('PartHandler._on_received_new_part', 1, 'for c in self._received_part_callb
 ghost_after('PartHandler._pass_part_downstream', '<entry>', g_taken='-1')
 ghost_after('PartHandler._pass_part_downstream', 'self._output = None', g_taken='k')
 PASS_ACTIVE = 'old(operational(self) and self._output is not None)'
-contract('PartHandler._pass_part_downstream', props=['C02', 'C03', 'C08'], for_cls=['PartHandler'], args={},
+contract('PartHandler._pass_part_downstream', props=['C02', 'C03', 'C08', 'C13'], for_cls=['PartHandler', 'PartProcessor'], args={},
          requires={'initialised': 'self._env is not None and alive(self._env)', 'clock_nonneg': 'self._env._now >= 0',
                    'output_alive': 'self._output is None or alive(self._output)'},
          ensures={
